@@ -240,8 +240,15 @@ func (r *Report) Fail(kind string, kf []string, c interface{}, detail map[string
 		}
 	}
 	r.Histogram["fail:"+kind]++
-	if len(r.Failures) >= r.maxFail {
-		// keep the smallest cases
+	// keep up to maxFail cases per kind, so that a flood of correspondence failures cannot crowd
+	// out a property violation
+	n := 0
+	for _, f := range r.Failures {
+		if f.Kind == kind {
+			n++
+		}
+	}
+	if n >= r.maxFail {
 		return
 	}
 	if kf == nil {
